@@ -154,6 +154,11 @@ impl Position {
         }
     }
 
+    /// Does this hold any position (as opposed to only a size)?
+    pub fn is_positioned(&self) -> bool {
+        self.has_x_position() || self.has_y_position()
+    }
+
     fn has_x_position(&self) -> bool {
         self.xmin.is_some() || self.xmax.is_some() || self.cx.is_some() || self.dx.is_some()
     }
